@@ -391,6 +391,17 @@ class Interp:
                 if v == NONE:
                     return False
             raise NoEval('pattern %s' % hir.pp_pat(p))
+        if k == 'Struct':
+            if isinstance(v, Cell):
+                v = v.get()
+            if not (isinstance(v, dict) and '__struct__' in v):
+                raise NoEval('struct pattern on %r' % (v,))
+            for n_, sp in p['fields']:
+                if n_ not in v:
+                    raise NoEval('field %s in a struct pattern' % n_)
+                if not self.bind(sp, v[n_], env):
+                    return False
+            return True
         if k == 'Path':
             c = p['res'].get('path') or ''
             if c.endswith('None'):
@@ -577,7 +588,7 @@ class Interp:
                     raise NoEval('partial_cmp returned %r' % (o_,))
                 c_ = {'Less': -1, 'Equal': 0, 'Greater': 1}[o_[1][1].rsplit('::', 1)[-1]]
                 return {'Lt': c_ < 0, 'Le': c_ <= 0, 'Gt': c_ > 0, 'Ge': c_ >= 0}[op]
-            if isinstance(a, dict) and '__struct__' in a and op in ('Add', 'Sub', 'Mul'):
+            if isinstance(a, dict) and '__struct__' in a and op in ('Add', 'Sub', 'Mul', 'Div', 'Rem', 'BitXor', 'BitAnd', 'BitOr'):
                 k_ = self._op_impl(op, e['l'].get('ty'), e['r'].get('ty'))
                 if k_ is None:
                     raise NoEval('operator %s on %s' % (op, a['__struct__']))
@@ -842,6 +853,10 @@ class Interp:
                 return {}
             if 'Vec' in t:
                 return []
+        if c in ('num::One::one', 'num::Zero::zero', 'num_traits::One::one', 'num_traits::Zero::zero') and not e['args']:
+            t0_ = (e.get('ty') or '').strip()
+            if int_ty(t0_) is not None or re.match(r'^[A-Z][A-Za-z0-9]?$', t0_):
+                return 1 if c.endswith('one') else 0       # an integer type (a type parameter instantiated with one in every evaluated use)
         if c.endswith(('Default>::default', 'Default::default')) and not e['args']:
             t0_ = (e.get('ty') or '').strip()
             if int_ty(t0_) is not None:
@@ -909,18 +924,22 @@ class Interp:
             r_ = self.host_method(e.get('callee') or '', nm, recv, lambda: [self.ev(x, env) for x in args])
             if r_ is not NotImplemented:
                 return r_
+        if nm == 'into' and not args and getattr(self, 'host_into', None) is not None:
+            r_ = self.host_into(recv, (e.get('ty') or '').strip())
+            if r_ is not NotImplemented:
+                return r_
+        if nm == 'into' and not args and self.facts is not None and (e.get('ty') or '').strip() in self.facts.get('adts', {}) \
+                and not (isinstance(recv, dict) and recv.get('__struct__') == e['ty'].strip()):
+            rt_ = (hir.strip(e['recv']).get('ty') or e['recv'].get('ty') or '').strip()
+            k_ = self._impl_method(e['ty'].strip(), 'from', 'std::convert::From<%s>' % rt_)
+            if k_ is not None:
+                return self.local_call(k_, [recv])
         if isinstance(recv, Obj):
             if nm in recv.methods:
                 return recv.methods[nm]([self.ev(x, env) for x in args])
             if not recv.strict:
                 raise Proceed('%s.%s' % (recv.name, nm))
             raise NoEval('method %s on %s' % (nm, recv.name))
-        if nm == 'into' and not args and self.facts is not None and (e.get('ty') or '').strip() in self.facts.get('adts', {}) \
-                and not (isinstance(recv, dict) and recv.get('__struct__') == e['ty'].strip()) and not isinstance(recv, Obj):
-            rt_ = (hir.strip(e['recv']).get('ty') or e['recv'].get('ty') or '').strip()
-            k_ = self._impl_method(e['ty'].strip(), 'from', 'std::convert::From<%s>' % rt_)
-            if k_ is not None:
-                return self.local_call(k_, [recv])
         if nm == 'peekable' and isinstance(recv, list) and not args:
             return PeekIter(recv)
         if nm in ('clone', 'to_owned', 'copied', 'cloned', 'iter', 'into_iter', 'iter_mut', 'by_ref', 'as_slice', 'to_vec', 'as_ref', 'as_mut', 'borrow', 'peekable', 'into', 'as_deref') and not args:
@@ -1269,6 +1288,12 @@ class Interp:
                     b_ = A()
                     r_ = recv + b_ if nm == 'overflowing_add' else recv - b_
                     return (wrap_int(r_, ty_), not in_range(r_, ty_))
+            if nm in ('div_floor', 'mod_floor') and len(args) == 1:
+                b_ = A()
+                b_ = b_.get() if isinstance(b_, Cell) else b_
+                if b_ == 0:
+                    raise Panics('division by zero')
+                return recv // b_ if nm == 'div_floor' else recv % b_
             if nm == 'rem_euclid' and len(args) == 1:
                 b_ = A()
                 if b_ == 0:
